@@ -71,3 +71,39 @@ func VfH_C09_glyph_simple() {
 	vfCover("rejected", err != nil)
 	vfReach("end")
 }
+
+// H-C09-varstore: an item variation store as the parser can return it (HVAR / VVAR / MVAR / GDEF / BASE share
+// it: region list with its own axis count, item variation data with UNCHECKED region indexes and delta rows of
+// regionIndexCount entries), then queried: GetDelta for an arbitrary delta-set index and coordinates of any
+// length 0..3 must be total (the number of coordinates comes from 'fvar' or from the caller of SetCoords).
+func VfH_C09_varstore() {
+	var store ItemVarStore
+	store.format = 1
+	axisCount := vfChoice("axisCount", 3)
+	nRegions := vfChoice("nRegions", 3)
+	store.VariationRegionList.axisCount = uint16(axisCount)
+	for i := 0; i < nRegions; i++ {
+		var reg VariationRegion
+		for a := 0; a < axisCount; a++ {
+			reg.RegionAxes = append(reg.RegionAxes, RegionAxisCoordinates{StartCoord: Coord(vfI16("start")), PeakCoord: Coord(vfI16("peak")), EndCoord: Coord(vfI16("end"))})
+		}
+		store.VariationRegionList.VariationRegions = append(store.VariationRegionList.VariationRegions, reg)
+	}
+	nIdx := vfChoice("regionIndexCount", 3)
+	data := ItemVariationData{itemCount: 1, regionIndexCount: uint16(nIdx)}
+	row := make([]int16, nIdx)
+	for i := 0; i < nIdx; i++ {
+		data.RegionIndexes = append(data.RegionIndexes, vfU16("regionIndex"))
+		row[i] = vfI16("delta")
+	}
+	data.DeltaSets = [][]int16{row}
+	store.ItemVariationDatas = []ItemVariationData{data}
+
+	nc := vfChoice("nCoords", 4)
+	coords := make([]Coord, nc)
+	for i := range coords {
+		coords[i] = Coord(vfI16("coord"))
+	}
+	store.GetDelta(VariationStoreIndex{DeltaSetOuter: vfU16("outer"), DeltaSetInner: vfU16("inner")}, coords)
+	vfReach("end")
+}
